@@ -31,9 +31,24 @@ Definition x_optimize := Optimize.optimize.
 Definition x_fs_table := Optimize.fs_table.
 Definition x_opt_ok := Optimize.opt_ok_b.
 Definition x_link := Link.link.
+(** the CheckAlwaysSucceeds table with the fuel computed once (same values as [asu_rule], see [x_asu_table_eq]) *)
+Definition x_asu_table (g : Syntax.grammar) : list bool :=
+  let fl := S (Analyses.gsize g) * S (length g) in
+  map (fun rb => match rb with Syntax.RBody b => Analyses.asu_f g fl nil b | _ => true end) g.
+Lemma map_seq_nth {A B} (f : A -> B) (h : nat -> B) l :
+  forall k, (forall i x, nth_error l i = Some x -> h (k + i) = f x) -> map f l = map h (seq k (length l)).
+Proof.
+  induction l as [|a l IH]; intros k H; cbn; [reflexivity|]. f_equal.
+  - rewrite <- (H 0 a eq_refl). f_equal. apply PeanoNat.Nat.add_0_r.
+  - apply IH. intros i x Hx. rewrite <- (H (S i) x Hx). f_equal. symmetry. apply PeanoNat.Nat.add_succ_r.
+Qed.
+Lemma x_asu_table_eq g : x_asu_table g = map (Analyses.asu_rule g) (seq 0 (length g)).
+Proof.
+  unfold x_asu_table. apply map_seq_nth. intros i rb E. cbn. unfold Analyses.asu_rule. rewrite E. destruct rb; reflexivity.
+Qed.
 Definition x_emit_all (g : Syntax.grammar) (ast inline : bool) (undef : list bool) : list (option (list Emit.tok)) :=
   map (option_map (fun c => Emit.squash (Emit.flat c)))
-      (let asul := map (Analyses.asu_rule g) (seq 0 (length g)) in
+      (let asul := x_asu_table g in
        Emit.emit_all g ast inline (fun r => nth r asul false) (fun r => nth r undef false)).
 Definition x_good_grammar_b := WF.good_grammar_b.
 Definition x_swok_b (g : Syntax.grammar) (inline : bool) : bool :=
